@@ -65,6 +65,39 @@ func findSafeTypes(w *World) []safeType {
 		if cl == nil && cd == nil {
 			continue
 		}
+		if cl == nil && isFlagHolderOnly(p.Types, n) {
+			continue // `type closeFlag struct{ closed bool }` with a Closed() of its own: judged in the wrappers that embed it
+		}
+		// the flag may live in a small struct embedded by value, which also brings the Closed() method along
+		if cl != nil && cd == nil {
+			done := false
+			for i := 0; i < st.NumFields() && !done; i++ {
+				ef := st.Field(i)
+				en, ok := ef.Type().(*types.Named)
+				if !ef.Embedded() || !ok || en.Obj().Pkg() != p.Types {
+					continue
+				}
+				est, ok := en.Underlying().(*types.Struct)
+				ecd := declaredMethod(en, "Closed")
+				if !ok || ecd == nil || declaredMethod(en, "Close") != nil {
+					continue
+				}
+				for j := 0; j < est.NumFields(); j++ {
+					f := est.Field(j)
+					if b, ok := f.Type().Underlying().(*types.Basic); !ok || b.Kind() != types.Bool {
+						continue
+					}
+					if d := w.Decl(cl); d != nil && len(findFieldStores(w.InfoOf(d), d.Body, f)) > 0 {
+						out = append(out, safeType{T: n, Flag: f, Close: cl, Closed: ecd})
+						done = true
+						break
+					}
+				}
+			}
+			if done {
+				continue
+			}
+		}
 		for i := 0; i < st.NumFields(); i++ {
 			f := st.Field(i)
 			if b, ok := f.Type().Underlying().(*types.Basic); !ok || b.Kind() != types.Bool {
@@ -243,7 +276,14 @@ func c19CloseRule(w *World, r *Report, rule string, s safeType) {
 			return true
 		}
 		if c, ok := in.(ssa.CallInstruction); ok {
-			return isCloseOn(w, c, isInner)
+			if isCloseOn(w, c, isInner) {
+				return true
+			}
+			// a helper method of the same object that closes the inner resource exactly once on each of its paths
+			// and returns that close's error: `err := x.release()`
+			if g := c.Common().StaticCallee(); g != nil && len(fn.Params) > 0 && len(c.Common().Args) > 0 && c.Common().Args[0] == ssa.Value(fn.Params[0]) {
+				return closeHelperOnce(w, g, s)
+			}
 		}
 		return false
 	}
@@ -395,7 +435,7 @@ func c19WritersRule(w *World, r *Report, rule string, s safeType) {
 				bad = append(bad, w.Pos(st.Pos)+" (composite literal in "+funcKey(obj)+")")
 				continue
 			}
-			if obj != s.Close {
+			if obj != s.Close && !sharedFlagClose(w, obj, s.Flag) {
 				bad = append(bad, w.Pos(st.Pos)+" (in "+funcKey(obj)+")")
 			}
 		}
@@ -1070,6 +1110,9 @@ func c19OnlyCloseClosesInner(w *World, r *Report, s safeType) {
 		if fn == nil || len(fn.Blocks) == 0 {
 			continue
 		}
+		if !m.Exported() && calledOnlyFrom(w, fn, w.SSAFunc(s.Close)) {
+			continue // a piece of Close itself (R19.1 counts its close as Close's)
+		}
 		n++
 		for _, g := range staticCone(fn, 1) {
 			recvOf := fn
@@ -1338,6 +1381,132 @@ func cycleThroughWithout(b, avoid *ssa.BasicBlock) bool {
 		}
 		seen[x] = true
 		st = append(st, x.Succs...)
+	}
+	return false
+}
+
+// closeHelperOnce: g is an unexported method of the wrapper type that, on every returning path, closes the inner
+// resource (a field of its receiver other than the flag) exactly once, never touches the flag, and returns a value
+// that derives from that close.
+func closeHelperOnce(w *World, g *ssa.Function, s safeType) bool {
+	if g == nil || !inModule(g) || len(g.Blocks) == 0 || len(g.Params) == 0 || recvNamed(fnObj(g)) != s.T || fnObj(g) == s.Close {
+		return false
+	}
+	if fo := fnObj(g); fo == nil || fo.Exported() {
+		return false
+	}
+	isInner := func(v ssa.Value) bool { return recvFieldLoad(g, v, s.Flag) }
+	all, any := true, false
+	okp := enumPaths(g, nil, func(in ssa.Instruction) bool {
+		if st, ok := in.(*ssa.Store); ok {
+			if fa, ok := st.Addr.(*ssa.FieldAddr); ok && fieldVarOf(fa) == s.Flag {
+				return true
+			}
+		}
+		if c, ok := in.(ssa.CallInstruction); ok {
+			return isCloseOn(w, c, isInner)
+		}
+		return false
+	}, nil, func(e pathExit) {
+		ret, isRet := e.Last.(*ssa.Return)
+		if !isRet {
+			return
+		}
+		if len(e.State.Events) != 1 || len(ret.Results) != 1 {
+			all = false
+			return
+		}
+		cv, isCall := e.State.Events[0].(ssa.Value)
+		if !isCall {
+			all = false // a flag store
+			return
+		}
+		derives := false
+		for _, root := range provenance(e.State.Resolve(ret.Results[0]), provOpts{}) {
+			if root == cv {
+				derives = true
+			}
+		}
+		if !derives {
+			all = false
+		}
+		any = true
+	})
+	return okp && all && any
+}
+
+// calledOnlyFrom: every static call of fn in the module stands in `only` (and there is at least one), and fn is
+// never used as a value.
+func calledOnlyFrom(w *World, fn, only *ssa.Function) bool {
+	if fn == nil || only == nil {
+		return false
+	}
+	n := 0
+	for g := range allModuleFuncs(w, w.SSA()) {
+		bad := false
+		allInstrs(g, func(in ssa.Instruction) {
+			if c, ok := in.(ssa.CallInstruction); ok && c.Common().StaticCallee() == fn {
+				n++
+				if g != only {
+					bad = true
+				}
+				for _, a := range c.Common().Args {
+					if a == ssa.Value(fn) {
+						bad = true
+					}
+				}
+				return
+			}
+			for _, op := range in.Operands(nil) {
+				if *op == ssa.Value(fn) {
+					if c, ok := in.(ssa.CallInstruction); !ok || c.Common().Value != ssa.Value(fn) {
+						bad = true
+					}
+				}
+			}
+		})
+		if bad {
+			return false
+		}
+	}
+	return n > 0
+}
+
+// isFlagHolderOnly: n has no Close of its own and is embedded by value in some struct type of the package that has.
+func isFlagHolderOnly(pkg *types.Package, n *types.Named) bool {
+	sc := pkg.Scope()
+	for _, nm := range sc.Names() {
+		tn, ok := sc.Lookup(nm).(*types.TypeName)
+		if !ok {
+			continue
+		}
+		o, ok := tn.Type().(*types.Named)
+		if !ok || o == n || declaredMethod(o, "Close") == nil {
+			continue
+		}
+		st, ok := o.Underlying().(*types.Struct)
+		if !ok {
+			continue
+		}
+		for i := 0; i < st.NumFields(); i++ {
+			if f := st.Field(i); f.Embedded() && f.Type() == types.Type(n) {
+				return true
+			}
+		}
+	}
+	return false
+}
+
+// sharedFlagClose: the flag lives in a struct that several wrappers embed; obj is the Close of one of them (it
+// stores the flag of its own receiver: R19.1 judges that path by path).
+func sharedFlagClose(w *World, obj *types.Func, flag *types.Var) bool {
+	if obj == nil || obj.Name() != "Close" {
+		return false
+	}
+	for _, s := range findSafeTypes(w) {
+		if s.Close == obj && s.Flag == flag {
+			return true
+		}
 	}
 	return false
 }
